@@ -54,6 +54,7 @@ type fanHarness struct {
 	stalled  []int           // task ids parked in a stalled node body
 	inBody   int
 	reentry  func(n *recNode, where string) // C12: nodes that call back into the broker
+	onEntry  func(n *recNode, lin string)   // called when a node is entered (e.g. a node that cancels its Send's context)
 	closeLog []string
 	stoppedAt time.Time // Broker.StopTimeAt value, if any
 }
@@ -142,6 +143,9 @@ func (n *recNode) Process(ctx context.Context, e *el.Event) (*el.Event, error) {
 	}
 	b := n.behaviour(lin)
 	rec := nodeRec{Node: n, InLin: lin, Beh: b, Task: simrt.TaskID(), Step: h.sim.Step, CtxErr: ctx.Err() != nil}
+	if h.onEntry != nil {
+		h.onEntry(n, lin)
+	}
 	if h.stallAt[n.Label] {
 		h.inBody++
 		simrt.Probe("node.stalled")
